@@ -290,7 +290,11 @@ def r_all(ctx, only_order=False):
     e = inline_calls(inline(sr[0].args[0], env), R, f.mod)
     shape_ok = False
     detail = U(e)
-    if isinstance(e, ast.Call) and dotted(R, f.mod, e.func) == "numpy.random.default_rng" and len(e.args) == 1 and not e.keywords:
+    # numpy documents default_rng(seed) as Generator(PCG64(seed)) (a SeedSequence is handed to the bit generator unchanged): one spelling
+    if isinstance(e, ast.Call) and dotted(R, f.mod, e.func) == "numpy.random.Generator" and len(e.args) == 1 and not e.keywords \
+            and isinstance(e.args[0], ast.Call) and dotted(R, f.mod, e.args[0].func) == "numpy.random.PCG64" and len(e.args[0].args) == 1 and not e.args[0].keywords:
+        e = ast.Call(func=parse_expr("numpy.random.default_rng"), args=[e.args[0].args[0]], keywords=[])
+    if isinstance(e, ast.Call) and dotted(R, f.mod, e.func) in ("numpy.random.default_rng",) and len(e.args) == 1 and not e.keywords:
         s = e.args[0]
         if isinstance(s, ast.Subscript) and U(s.slice) == "chain_index" and isinstance(s.value, ast.Call) and attr_tail(s.value) == "spawn" \
                 and [U(x) for x in s.value.args] == ["n_chains"]:
